@@ -44,10 +44,11 @@ CLAIMED = {
          "readers/writers conform to io.Reader/io.Writer. Prefault and slack bytes beyond len are not modelled."),
    technique="Coq refinement proof (model -> abstract three-FIFO spec, all ops, all int64 arguments, induction over histories); differential correspondence + extracted oracle"),
  "C20": dict(
-   text=("PARTIAL proof + full correspondence. Coq theorems (4, closed): sequencedSlots.Push/Pop against a finite map "
+   text=("PARTIAL proof + full correspondence. Coq theorems (5, closed): sequencedSlots.Push/Pop against a finite map "
          "(sortedness invariant; duplicates and the slot limit rejected without disturbing stored entries; pop removes "
          "exactly the requested entry), the regenerated OffsetSlot, and the Fenwick tree's unit responses for every size "
-         "<= 24 (kernel-evaluated finite sweep). The end-to-end statement (the slot popped for a number addresses exactly "
+         "<= 64 (kernel-evaluated finite sweep) lifted, by linearity of Add and SumUntil in the stored array, to the prefix-sum "
+         "contract for every history of in-range Adds with arbitrary deltas on those sizes. The end-to-end statement (the slot popped for a number addresses exactly "
          "the bytes saved under it whatever was discarded before; Bytes()/Size() totals; capacity errors leave state "
          "intact) is decided on the implementation by the extracted ParkedMap oracle over every interleaving of <= 4 (5 "
          "thorough) pushes with pops in every order, capacity edges, never-draining sequencers until the offset index "
@@ -271,7 +272,7 @@ CLAIMED = {
          "(RLIMIT_NOFILE) as a failure point, the garbage collector itself, TLS dialling."),
    technique="Coq proof (registry invariant by induction over the loop model; guard invariant over descriptor-table histories; finite sweep of constructor paths) + /proc/self/fd census correspondence + GC probes"),
  "C17": dict(
-   text=("PARTIAL proof + full correspondence. Coq theorems (4, closed) about a focused model of the AsyncAdapter's single write "
+   text=("PARTIAL proof + full correspondence. Coq theorems (5, closed) about a focused model of the AsyncAdapter's single write "
          "reactor, CodecConn/ByteBuffer asynchronous write, the Stream's flush chain with waiting callers, AsyncWrite and the "
          "read path with automatic Pongs, for every history of application calls, peer events and polls with any number of "
          "bytes accepted per write call: the wire is a prefix of the frames in queue order (never interleaved or repeated); "
